@@ -172,9 +172,9 @@ Definition count_cover (cover : list clique) (e : edge) : nat :=
 Definition exact_cover_b (g : graph) (m0 : nat) (cover : list clique) : bool :=
   forallb (member_okb g m0) cover && forallb (fun e => Nat.eqb (count_cover cover e) 1) g.
 
-(* same vertex set (for duplicate-free lists of equal length) *)
+(* same vertex set *)
 Definition same_setb (a b : clique) : bool :=
-  Nat.eqb (length a) (length b) && forallb (fun x => memb x b) a.
+  forallb (fun x => memb x b) a && forallb (fun x => memb x a) b.
 
 Definition share_edgeb (a b : clique) : bool := existsb (fun p => subset2b p b) (pairs_of a).
 
